@@ -144,6 +144,13 @@ CLAIMED = {
             "closed get no velocity-level percussion.", "4/C18",
             "path-exploring symbolic execution of the real projection code on z3 terms + z3 nlsat per obligation under the fixed-point hypothesis; float replay at float fixed points",
             "One contact, two friction components; reaching the fixed point, DualStormerVerlet and the kinetic-energy clause are outside."),
+    "C16": ("proof", "The real System.assemble / consistent_initial_conditions runs symbolically (parameters, admissible initial values and the LU-stub "
+            "outputs symbolic): the rows of the recorded initial linear system are proved identical to the equations of motion including applied, "
+            "actuator, compliance and constraint forces and to g_ddot; on every path that returns the initial state satisfies the position / velocity "
+            "constraints and the contact is not penetrated or approaching; every other path raises; returned contact forces are non-negative and in "
+            "the friction cone.", "4/C16",
+            "path-exploring symbolic execution of the real assembly code with the LU contract (rows-as-identities) + z3 per obligation; float replay",
+            "Grid of three small systems; contact fixed-point loop bounded to 2 iterations; acceleration-level complementarity only as far as the projections' ranges."),
 }
 
 NOT_APPLICABLE = {
